@@ -93,11 +93,21 @@ func formatScalar(val any) string {
 	if list, ok := val.([]any); ok {
 		items := make([]string, 0, len(list))
 
+		onlyStrings := true
 		for _, item := range list {
+			if _, isString := item.(string); !isString {
+				onlyStrings = false
+			}
+
 			items = append(items, formatScalar(item))
 		}
 
-		// FIXME: this is wrong, we can't just assume a list of strings.
+		// nothing says what the items are: a list that holds something
+		// else than strings is a list of anything
+		if !onlyStrings {
+			return fmt.Sprintf("[]any{%s}", strings.Join(items, ", "))
+		}
+
 		return fmt.Sprintf("[]string{%s}", strings.Join(items, ", "))
 	}
 
